@@ -163,7 +163,7 @@ impl<R: Registry> VxClaimMap<R> {
     #[verifier::external_body]
     pub fn len(&self) -> (n: usize) { unimplemented!() }
     #[verifier::external_body]
-    pub fn is_empty(&self) -> (b: bool) { unimplemented!() }
+    pub fn is_empty(&self) -> (b: bool) ensures b == (forall|k: IdentifierRef<R>| !self@.dom().contains(k)) { unimplemented!() }
 }
 /// the task of this link of the stage (`self.0: &mut T`): counts how often it was run
 #[verifier::external_body]
@@ -194,6 +194,17 @@ impl<R: Registry, S> VxRest<R, S> {
 }
 /// `(&mut T, U)`
 pub struct VxLink<R: Registry, S, T>(pub VxTask<T>, pub VxRest<R, S>);
+/// the next stage, as the end of this stage sees it: records what its `run_add_ons` is handed
+impl VxNextStages {
+    pub uninterp spec fn add_on_calls<R: Registry, S>(&self) -> Seq<(IMap<IdentifierRef<R>, VxClaims<R>>, VxResClaims<S>)>;
+    #[verifier::external_body]
+    pub unsafe fn run_add_ons<R: Registry, S>(&mut self, world: SendableWorld<R, S>, borrowed_archetypes: VxClaimMap<R>, resource_claims: VxResClaims<S>) -> (r: VxHasRun)
+        ensures final(self).add_on_calls::<R, S>() == old(self).add_on_calls::<R, S>().push((borrowed_archetypes@, resource_claims)) { unimplemented!() }
+    #[verifier::external_body]
+    pub fn vx_new_has_run() -> (r: VxHasRun) { unimplemented!() }
+}
+/// `Null`: the end of a stage's task list
+pub struct VxStageEnd { pub _p: () }
 '''
 
 
@@ -333,6 +344,16 @@ def build():
                     ("C08.stage.add_ons_hand_on_archetype_claims", "final(self).1.handed().len() == old(self).1.handed().len() + 1 && old(self).1.handed() == final(self).1.handed().drop_last() && (if r.0 { vx_recorded(borrowed_archetypes@, final(self).1.handed().last().0, vx_task_claims::<R, Resources, T>(world), vx_task_claims::<R, Resources, T>(world).len() as int) } else { final(self).1.handed().last().0 == borrowed_archetypes@ })"),
                     ("C15.stage.add_ons_hand_on_resource_claims", "r.0 ==> final(self).1.handed().last().1 == vx_res_merged(vx_task_res_claims::<Resources, T>(), resource_claims)"),
                     ("C15.stage.add_ons_keep_resource_claims", "!r.0 ==> final(self).1.handed().last().1 == resource_claims || final(self).1.handed().last().1 == vx_res_merged(vx_task_res_claims::<Resources, T>(), resource_claims)")],
+           props=["C08", "C15"]),
+    ])
+
+    NULLI = r"^impl<R, Resources> Stage<'_, R, Resources, Null, Null, Null, Null, Null> for Null"
+    u.impl("impl VxStageEnd", [
+        Fn(ST, NULLI, "run", ret="r", vis="pub", generics="<R: Registry, Resources>", where="",
+           params="&mut self, world: SendableWorld<R, Resources>, borrowed_archetypes: VxClaimMap<R>, resource_claims: VxResClaims<Resources>, _has_run: VxHasRun, next_stage: &mut VxNextStages",
+           ret_type="VxHasRun",
+           rewrites=[(r"N::new_has_run\(\)", "VxNextStages::vx_new_has_run()", "R6: the all-false has-run flags of the next stage (type-level)")],
+           ensures=[("C08.stage.end_hands_claims_to_next_stage", "final(next_stage).add_on_calls::<R, Resources>() == (if forall|k: IdentifierRef<R>| !borrowed_archetypes@.dom().contains(k) { old(next_stage).add_on_calls::<R, Resources>() } else { old(next_stage).add_on_calls::<R, Resources>().push((borrowed_archetypes@, resource_claims)) })")],
            props=["C08", "C15"]),
     ])
     u.label_props.update({"C15": ["C15", "C08"]})
